@@ -1046,3 +1046,149 @@ Proof.
   unfold mutate_pop. split; [apply mutate_from_length|]. split; [apply mutate_from_indices|].
   intros j d Hd Hj. apply (mutate_from_label ds 0%nat w j d Hd). auto.
 Qed.
+
+(* ---------------------------------------------------------------------------------------------- *)
+(* 14. a learn step writes every cell an optimizer of a coherent agent references *)
+Section LearnMoves.
+  Variable s0 : store.
+  Variable a0 : agent.
+  Variable l : loc.
+  Hypothesis Hl : l < s_next s0.
+
+  Definition adv (x : lstate) : Prop :=
+    s_fresh s0 <= s_fresh (fst x) /\ s_next s0 <= s_next (fst x) /\ enc_head_same a0 (snd x).
+  Definition hit (x : lstate) : Prop := s_fresh s0 <= rd (fst x) l.
+  Definition keep (f : lstate -> lstate) : Prop := forall x, adv x -> adv (f x) /\ (hit x -> hit (f x)).
+  Definition make (f : lstate -> lstate) : Prop := forall x, adv x -> hit (f x).
+
+  Lemma write_fresh_ge : forall ls s, In l ls -> s_fresh s <= rd (write_fresh s ls) l.
+  Proof.
+    induction ls as [|l0 r IH]; intros s H; [contradiction|]. cbn [write_fresh].
+    destruct (in_dec N.eq_dec l r) as [Hr|Hr].
+    - specialize (IH (mkStore (s_next s) (N.succ (s_fresh s)) (upd (s_heap s) l0 (s_fresh s))) Hr). cbn [s_fresh] in IH. lia.
+    - destruct H as [->|H]; [|contradiction]. rewrite write_fresh_frame by auto.
+      unfold rd. cbn [s_heap]. rewrite hget_upd, N.eqb_refl. lia.
+  Qed.
+
+  Lemma keep_wfresh k : keep (wfresh k).
+  Proof.
+    intros x (A1 & A2 & A3). unfold wfresh. cbn [fst snd]. split.
+    - repeat split; auto.
+      + pose proof (write_fresh_mono (getb k (a_blocks (snd x))) (fst x)). lia.
+      + rewrite write_fresh_next. auto.
+    - unfold hit. cbn [fst]. intros H.
+      destruct (in_dec N.eq_dec l (getb k (a_blocks (snd x)))) as [Hi|Hi].
+      + pose proof (write_fresh_ge _ (fst x) Hi). lia.
+      + rewrite write_fresh_frame; auto.
+  Qed.
+
+  Lemma make_wfresh k : In l (blk a0 k) -> (snd k = cEnc \/ snd k = cHead) -> make (wfresh k).
+  Proof.
+    intros Hi Hk x (A1 & A2 & A3). unfold hit, wfresh. cbn [fst].
+    assert (E : getb k (a_blocks (snd x)) = blk a0 k) by (apply A3; auto).
+    rewrite E. pose proof (write_fresh_ge _ (fst x) Hi). lia.
+  Qed.
+
+  Lemma keep_realloc_ost o srcs : keep (realloc (o, cOst) srcs).
+  Proof.
+    intros x (A1 & A2 & A3).
+    pose proof (eff_realloc (o, cOst) srcs false false false x) as E.
+    pose proof (alloc_fresh_mono srcs (fst x)) as F. pose proof (alloc_next srcs (fst x)) as Nx.
+    pose proof (alloc_frame srcs (fst x) l) as Fr.
+    unfold realloc in *. destruct (alloc (fst x) srcs) as [s' ls]. cbn [fst snd] in *. split.
+    - repeat split; try lia. intros k Hk. rewrite (eff_other _ _ _ _ _ _ k E).
+      + apply A3; auto.
+      + intro; subst. destruct Hk; discriminate.
+    - unfold hit. cbn [fst]. intros H. rewrite Fr; auto. lia.
+  Qed.
+
+  Lemma keep_learn_opt ok : keep (learn_opt ok).
+  Proof.
+    intros x A. unfold learn_opt. destruct (Nat.eqb _ _); [apply keep_wfresh|apply keep_realloc_ost]; auto.
+  Qed.
+
+  Lemma seqL_keep fs : Forall keep fs -> forall x, adv x -> adv (seqL fs x) /\ (hit x -> hit (seqL fs x)).
+  Proof.
+    induction fs as [|f r IH]; intros H x A; [split; auto|]. inversion H; subst. rewrite seqL_cons.
+    destruct (H2 x A) as [A' K]. destruct (IH H3 (f x) A') as [A'' K']. split; auto.
+  Qed.
+
+  Lemma seqL_make fs : Forall keep fs -> Exists make fs -> forall x, adv x -> hit (seqL fs x).
+  Proof.
+    induction fs as [|f r IH]; intros H E x A; [inversion E|]. inversion H; subst. rewrite seqL_cons.
+    destruct (H2 x A) as [A' K]. inversion E; subst.
+    - apply (seqL_keep r H3 (f x) A'). auto.
+    - apply IH; auto.
+  Qed.
+End LearnMoves.
+
+Lemma learn_moves_lemma st s a o l :
+  Coherent a -> (forall c n, In c (r_opts (a_reg a)) -> In n (oc_nets c) -> In n (net_names a)) ->
+  Forall (fun l => l < s_next s) (agent_locs a) ->
+  In o (a_opts a) -> In l (o_refs o) ->
+  s_fresh s <= rd (fst (learn_agent st (s, a))) l.
+Proof.
+  intros C Hnets B Ho Hl.
+  pose proof (coherent_refs_live_lemma a C o l Ho Hl) as Live.
+  assert (Hb : l < s_next s) by (rewrite Forall_forall in B; auto).
+  destruct C as (CO & _ & _). rewrite Forall_forall in CO. destruct (CO o Ho) as (c & F & (_ & I & _) & _).
+  apply find_optcfg_spec in F as [Hc _].
+  specialize (I l Hl). unfold want_refs in I. apply in_concat in I as (ex & Hex & Hin).
+  apply in_map_iff in Hex as (n & <- & Hn). specialize (Hnets c n Hc Hn).
+  assert (A0 : adv s a (s, a)).
+  { unfold adv. cbn [fst snd]. repeat split; try lia. }
+  unfold learn_agent. cbn [snd].
+  apply (seqL_make s a l Hb); auto.
+  - apply Forall_app. split; [|apply Forall_app; split].
+    + apply Forall_forall. intros f Hf. apply in_flat_map in Hf as (m & _ & Hf).
+      destruct Hf as [<-|[<-|[<-|[]]]]; apply keep_wfresh.
+    + constructor; [apply keep_wfresh|constructor].
+    + apply Forall_forall. intros f Hf. apply in_map_iff in Hf as (ok & <- & _). apply keep_learn_opt.
+  - apply Exists_app. left. apply Exists_exists.
+    unfold exposed in Hin. apply in_app_or in Hin as [Hin|Hin].
+    + exists (wfresh (n, cEnc)). split.
+      * apply in_flat_map. exists n. split; auto. left; auto.
+      * apply make_wfresh; auto.
+    + exists (wfresh (n, cHead)). split.
+      * apply in_flat_map. exists n. split; auto. right; left; auto.
+      * apply make_wfresh; auto.
+Qed.
+
+(* ---------------------------------------------------------------------------------------------- *)
+(* 15. architecture_mutate at descriptor level *)
+Section ArchFollowProofs.
+  Context {arch meth args : Type}.
+  Variable net_apply : meth -> args -> arch -> arch * option meth * args.
+  Variable no_args : args.
+
+  Lemma arch_follows_lemma m pol others :
+    exists d,
+      net_apply m no_args pol = (fst (fst (arch_mutate net_apply no_args m pol others)),
+                                 snd (arch_mutate net_apply no_args m pol others), d) /\
+      snd (fst (arch_mutate net_apply no_args m pol others)) =
+        map (follow_one net_apply (snd (arch_mutate net_apply no_args m pol others)) d) others.
+  Proof.
+    unfold arch_mutate. destruct (net_apply m no_args pol) as [[p' applied] d]. exists d. cbn [fst snd]. split; reflexivity.
+  Qed.
+
+  Lemma follow_none d others : map (follow_one net_apply None d) others = others.
+  Proof. cbn [follow_one]. apply map_id. Qed.
+
+  (* replaying the resolved method with the returned arguments reproduces the result (C03's domain) *)
+  Definition replayable : Prop :=
+    forall m a a' m' d, net_apply m no_args a = (a', Some m', d) -> fst (fst (net_apply m' d a)) = a'.
+
+  Lemma arch_same_before_same_after m pol others :
+    replayable ->
+    let r := arch_mutate net_apply no_args m pol others in
+    length (snd (fst r)) = length others /\
+    (snd r = None -> snd (fst r) = others) /\
+    (snd r <> None -> forall i, nth_error others i = Some pol -> nth_error (snd (fst r)) i = Some (fst (fst r))).
+  Proof.
+    intros Rp. cbv zeta. unfold arch_mutate. destruct (net_apply m no_args pol) as [[p' applied] d] eqn:E. cbn [fst snd].
+    split; [apply map_length|]. split.
+    - intros ->. apply follow_none.
+    - intros Hne i Hi. rewrite nth_error_map, Hi. cbn [option_map]. f_equal.
+      destruct applied as [m'|]; [|congruence]. cbn [follow_one]. apply (Rp m pol p' m' d E).
+  Qed.
+End ArchFollowProofs.
